@@ -55,13 +55,15 @@ theorem isFinite_not_inf {b : Nat} (h : isFinite b = true) : b % 2 ^ 63 ≠ DecF
 
 /-- **what reading back says**: the shipped text of a finite REAL `b` is a `number` of RFC 8259 denoting the decimal `d`;
 the REAL nearest to `d`, with the sign of the text, is `b` (for `b` other than `±0`: `nearestReal d = b`, a function of
-`d` alone); `f64::from_str` of the text is `b`; sqlgrep's own JSON reader reads a number whose REAL is `b` -/
+`d` alone); `f64::from_str` of the text is `b` (when the text's exponent digits' value is below 65 536, where Rust stops
+reading the exponent: observation N3 — every text ryu prints has an exponent of at most three digits); sqlgrep's own
+JSON reader reads a number whose REAL is `b` -/
 theorem readsBack_spec (o : RealOracle) (b : Nat) (hf : isFinite b = true)
     (h : JsonDoc.readReal (chars (o.json b)) = some b) :
     ∃ d, numValue (chars (o.json b)) = some d ∧ NumD (chars (o.json b)) d ∧
       JsonDoc.realOfDec (JsonDoc.lexNeg (chars (o.json b))) d = b ∧
       (b % 2 ^ 63 ≠ 0 → JsonDoc.nearestReal d = b) ∧
-      DecFloat.parseF64 (chars (o.json b)) = some b ∧
+      (FloatGrammar.ExpSmall (chars (o.json b)) → DecFloat.parseF64 (chars (o.json b)) = some b) ∧
       ∃ n, JsonDoc.serdeNumber (chars (o.json b)) = some n ∧ (Sqlgrep.Json.num n).asF64 = some b := by
   obtain ⟨d, n, hD, hr, hs, ha⟩ := readReal_serdeNumber h (isFinite_not_inf hf)
   refine ⟨d, numValue_complete hD, hD, hr, ?_, ?_, n, hs, ha⟩
@@ -70,6 +72,6 @@ theorem readsBack_spec (o : RealOracle) (b : Nat) (hf : isFinite b = true)
     split at hr
     · rw [← hr] at hnz; exact absurd (by decide) hnz
     · exact hr
-  · rw [JsonDoc.json_number_is_from_str hD, hr]
+  · intro hsm; rw [JsonDoc.json_number_is_from_str hD hsm, hr]
 
 end Sqlgrep.Print
